@@ -392,6 +392,19 @@ def _lookups(ctx) -> list[Inst]:
                 if any(k in keytxt for k in REFERENCE_KEYS):
                     var = n.targets[0].id
                     what = [k for k in REFERENCE_KEYS if k in keytxt][0].strip("[]'")
+            # x = <obj>.get_<kind>_by_name(KEY): a package lookup that answers None for an unknown name
+            elif isinstance(v, ast.Call) and isinstance(v.func, ast.Attribute) and len(n.targets) == 1 \
+                    and isinstance(n.targets[0], ast.Name) and v.func.attr.startswith('get_') \
+                    and v.func.attr.endswith('_by_name') and v.args:
+                keytxt = stmt_text(v.args[0])
+                for nm in ast.walk(v.args[0]):
+                    if isinstance(nm, ast.Name):
+                        for d in cfg.reaching(cfg.node_of(n), nm.id):
+                            if d.kind == 'stmt' and isinstance(d.ast, ast.Assign):
+                                keytxt += ' ' + stmt_text(d.ast.value)
+                if any(k in keytxt for k in REFERENCE_KEYS):
+                    var = n.targets[0].id
+                    what = [k for k in REFERENCE_KEYS if k in keytxt][0].strip("[]'")
             # (target_asset, dep_chain, name) = self.process_step_expression(...)
             elif isinstance(v, ast.Call) and isinstance(v.func, ast.Attribute) \
                     and v.func.attr == 'process_step_expression' and fname.endswith('_generate_graph') \
@@ -442,5 +455,8 @@ def _lookups(ctx) -> list[Inst]:
                          f"an unknown {what} is logged/skipped instead of being reported as an error"),
                     file=rel, line=g.lineno, props=props))
         if found < floor:
-            raise AnalysisError(f'R9b: only {found} reference lookups recognised in {fname} (expected >= {floor})')
+            insts.append(Inst(RULE, f.short, '(b) every reference lookup is recognised', 'unproven',
+                              msg=(f'only {found} reference lookups recognised in {fname} (expected >= {floor}): the '
+                                   f'remaining ones are written in a form this rule does not know'),
+                              file=rel, line=f.node.lineno, props=props))
     return insts
